@@ -87,6 +87,17 @@ def check(run):
     run.assumptions = ['raysect Spectrum.integrate(a, b) returns the integral of the spectrum over [a, b]']
     _r1(run, prog, eff, base, concrete)
     _r2(run, prog, eff, concrete)
+    from ._fresh import fresh_per_iteration
+    nf = 0
+    for ci_ in [base] + concrete:
+        for mname_, fn_ in sorted(ci_.methods.items()):
+            nf += fresh_per_iteration(run, 'C16-R3', ci_.name, ci_.mod, fn_, describe=(nf == 0))
+    run.floor('C16-R3', 1)
+    from ._memo import check_inline_memos, selfcheck
+    selfcheck()
+    check_inline_memos(run, 'C16-R4', prog, eff, sorted(concrete, key=lambda c_: c_.qual))
+    run.subject('C16-R4')
+    run.ok('C16-R4', 'inline memo rule', 'self-check on the built-in example: late reset and missing reset reported, correct mutator accepted', sample=False)
     from ..cachekey import check_caches
     check_caches(run, [m for k, m in prog.modules.items() if k.startswith('cherab.tools.spectroscopy')], 'C16-K')
 
@@ -411,77 +422,163 @@ def _polychromator_settings(run, prog, pc):
     KP = '%s|Polychromator|_update_spectral_settings|' % pc.mod.name
     us0 = pc.methods.get('_update_spectral_settings')
     us = prep(us0, class_lookup(prog, pc))
-    loops = [l for l in us.body if isinstance(l, ast.For) and norm(l.iter) in ('self._filters', 'self.filters') and isinstance(l.target, ast.Name)]
-    run.subject('C16-R2')
-    if len(loops) != 1:
-        run.undecided('C16-R2', 'Polychromator settings', 'expected one loop over the filters')
-        return
-    lp = loops[0]
-    fv = lp.target.id
-    roles = {}        # role -> (accumulator name, function used, stmt)
-    for st in lp.body:
-        if isinstance(st, ast.Assign) and len(st.targets) == 1 and isinstance(st.targets[0], ast.Name) and isinstance(st.value, ast.Call) \
-                and dotted(st.value.func) in ('min', 'max') and len(st.value.args) == 2:
-            acc = st.targets[0].id
-            others = [a for a in st.value.args if norm(a) != acc]
-            if len(others) != 1:
-                continue
-            o = norm(others[0]).replace(' ', '')
-            role = {'%s.min_wavelength' % fv: 'min', '%s.max_wavelength' % fv: 'max',
-                    '%s.window/self._min_bins_per_window' % fv: 'step', '%s.window/self.min_bins_per_window' % fv: 'step'}.get(o)
-            if role:
-                roles[role] = (acc, dotted(st.value.func), st)
-    inits = {}
-    for st in us.body:
-        if st is lp:
-            break
-        if isinstance(st, ast.Assign) and len(st.targets) == 1 and isinstance(st.targets[0], ast.Name):
-            inits[st.targets[0].id] = norm(st.value)
-    want_fn = {'min': 'min', 'max': 'max', 'step': 'min'}
-    want_init = {'min': ('np.inf', "float('inf')", 'math.inf', 'inf'), 'max': ('0', '0.0', '-np.inf'), 'step': ('np.inf', "float('inf')", 'math.inf', 'inf')}
+    FILTERS = ('self._filters', 'self.filters')
+    from ..inline import resolver
+    from ..algebra import SymEval
+    res = resolver(us)
+
+    def elementwise_text(e, var):
+        class R(ast.NodeTransformer):
+            def visit_Name(self, n):
+                return ast.Name(id='f', ctx=n.ctx) if n.id == var else n
+        import copy
+        return norm(R().visit(copy.deepcopy(e)))
+
+    def elementwise(e, var):
+        t = elementwise_text(e, var)
+        try:
+            return SymEval().ev(ast.parse(t, mode='eval').body).key()
+        except Exception:
+            return t
+
+    def lam_key(call):
+        for k in call.keywords:
+            if k.arg == 'key' and isinstance(k.value, ast.Lambda) and len(k.value.args.args) == 1:
+                return elementwise(k.value.body, k.value.args.args[0].arg)
+        return None
+
+    def seq_of(e):
+        """the filters, possibly sorted: (sort key or None, reversed)"""
+        if norm(e) in FILTERS:
+            return (None, False)
+        if isinstance(e, ast.Name):
+            r = res(e)
+            if norm(r) != norm(e):
+                return seq_of(r)
+        if isinstance(e, ast.Call) and dotted(e.func) in ('sorted', 'list', 'tuple') and e.args and seq_of(e.args[0]) is not None:
+            if dotted(e.func) != 'sorted':
+                return seq_of(e.args[0])
+            rev = any(k.arg == 'reverse' and norm(k.value) == 'True' for k in e.keywords)
+            return (lam_key(e) or '?', rev)
+        return None
+
+    def reduction(e, depth=0):
+        """('min'|'max', elementwise normal form) | ('pick', sort key, 'min'|'max', attribute) | ('badinit', text) | None"""
+        if depth > 6 or e is None:
+            return None
+        if isinstance(e, ast.Name):
+            # accumulator of a loop over the filters
+            for lp in [l for l in ast.walk(us) if isinstance(l, ast.For) and seq_of(l.iter) is not None and isinstance(l.target, ast.Name)]:
+                for st in ast.walk(lp):
+                    if isinstance(st, ast.Assign) and len(st.targets) == 1 and norm(st.targets[0]) == e.id and isinstance(st.value, ast.Call) \
+                            and dotted(st.value.func) in ('min', 'max') and len(st.value.args) == 2:
+                        others = [x for x in st.value.args if norm(x) != e.id]
+                        if len(others) != 1:
+                            continue
+                        fnm = dotted(st.value.func)
+                        init = [norm(s_.value) for s_ in us.body if isinstance(s_, ast.Assign) and len(s_.targets) == 1 and norm(s_.targets[0]) == e.id
+                                and s_.lineno < lp.lineno]
+                        good = ('np.inf', "float('inf')", 'math.inf', 'inf') if fnm == 'min' else ('0', '0.0', '-np.inf', "-float('inf')", '-math.inf')
+                        if not init:
+                            return None
+                        if init[-1] not in good:
+                            return ('badinit', '%s starts from %s' % (e.id, init[-1]))
+                        return (fnm, elementwise(others[0], lp.target.id), elementwise_text(others[0], lp.target.id))
+            r = res(e)
+            return reduction(r, depth + 1) if norm(r) != norm(e) else None
+        if isinstance(e, ast.BinOp) and isinstance(e.op, (ast.Div, ast.Mult)):
+            inner = reduction(e.left, depth + 1)
+            if inner and inner[0] in ('min', 'max') and not any(norm(x) in FILTERS for x in ast.walk(e.right)):
+                # min(E) / c == min(E / c) for a positive c that does not depend on the filter
+                t = '(%s) %s (%s)' % (inner[2], '/' if isinstance(e.op, ast.Div) else '*', norm(res(e.right)))
+                return (inner[0], elementwise(ast.parse(t, mode='eval').body, 'f'), t)
+            return None
+        if isinstance(e, ast.Call) and dotted(e.func) in ('min', 'max', 'np.min', 'np.max', 'np.amin', 'np.amax') and len(e.args) == 1 \
+                and isinstance(e.args[0], (ast.GeneratorExp, ast.ListComp)) and len(e.args[0].generators) == 1 and not e.args[0].generators[0].ifs \
+                and seq_of(e.args[0].generators[0].iter) is not None and isinstance(e.args[0].generators[0].target, ast.Name):
+            g = e.args[0].generators[0]
+            return (dotted(e.func).split('.')[-1].replace('a', '', 1) if dotted(e.func).split('.')[-1].startswith('am') else dotted(e.func).split('.')[-1],
+                    elementwise(e.args[0].elt, g.target.id), elementwise_text(e.args[0].elt, g.target.id))
+        if isinstance(e, ast.Attribute):
+            v = e.value if not isinstance(e.value, ast.Name) else res(e.value)
+            # min(filters, key=...).attr
+            if isinstance(v, ast.Call) and dotted(v.func) in ('min', 'max') and len(v.args) == 1 and seq_of(v.args[0]) is not None:
+                k = lam_key(v)
+                attr = 'f.' + e.attr
+                if k == elementwise(ast.parse(attr, mode='eval').body, 'f'):
+                    return (dotted(v.func), k, attr)
+                return ('pick', k, dotted(v.func), e.attr)
+            # sorted(filters, key=...)[0].attr
+            if isinstance(v, ast.Subscript) and isinstance(v.slice, (ast.Constant, ast.UnaryOp)) and norm(v.slice) in ('0', '-1'):
+                sq = seq_of(v.value)
+                if sq is not None and sq[0] is not None:
+                    which = 'min' if (norm(v.slice) == '0') != sq[1] else 'max'
+                    attr = elementwise(ast.parse('f.' + e.attr, mode='eval').body, 'f')
+                    if sq[0] == attr:
+                        return (which, attr, 'f.' + e.attr)
+                    return ('pick', sq[0], which, e.attr)
+        return None
+
+    post = {}
+    for st in ast.walk(us):
+        if isinstance(st, ast.Assign) and len(st.targets) == 1 and norm(st.targets[0]).startswith('self._'):
+            post[norm(st.targets[0])] = st.value
+    ew = lambda t: elementwise(ast.parse(t, mode='eval').body, 'f')
+    WANT = {'min': ('min', [ew('f.min_wavelength')]), 'max': ('max', [ew('f.max_wavelength')]),
+            'step': ('min', [ew('f.window / self._min_bins_per_window'), ew('f.window / self.min_bins_per_window')])}
+    got = {}
+    for role, fld in (('min', 'self._min_wavelength'), ('max', 'self._max_wavelength')):
+        got[role] = (post.get(fld), reduction(post.get(fld)))
+    # the step is whatever divides the range in the bin count
+    bins = post.get('self._spectral_bins')
+    parts = None
+    if bins is not None:
+        x = res(bins)
+        while isinstance(x, ast.Call) and dotted(x.func) in ('int', 'np.ceil', 'ceil', 'math.ceil', 'round', 'np.floor', 'floor', 'math.floor') and len(x.args) == 1:
+            x = x.args[0]
+        if isinstance(x, ast.BinOp) and isinstance(x.op, ast.Div) and isinstance(x.left, ast.BinOp) and isinstance(x.left.op, ast.Sub):
+            parts = (x.left.left, x.left.right, x.right)
+    orig_bins = bins
+    if parts is not None:
+        # unresolved spelling of the step operand (resolution may have expanded it): find it in the original expression
+        y = bins
+        while isinstance(y, ast.Call) and len(y.args) == 1:
+            y = y.args[0]
+        step_e = y.right if isinstance(y, ast.BinOp) and isinstance(y.op, ast.Div) else parts[2]
+        got['step'] = (step_e, reduction(step_e))
     for role in ('min', 'max', 'step'):
         run.subject('C16-R2')
-        if role not in roles:
-            run.undecided('C16-R2', 'Polychromator ' + role, 'accumulation over the filters not recognised')
-            continue
-        acc, fnm, st = roles[role]
-        if fnm != want_fn[role]:
-            run.fail('C16-R2', KP + role, pc.mod.relpath, st.lineno,
-                     'Polychromator._update_spectral_settings accumulates the %s with %s(): %s' % (role, fnm, norm(st)))
-        elif inits.get(acc) not in want_init[role]:
-            if inits.get(acc) is None:
-                run.undecided('C16-R2', 'Polychromator ' + role, 'initial value of %s not found' % acc)
-            else:
-                run.fail('C16-R2', KP + role + '-init', pc.mod.relpath, st.lineno,
-                         'Polychromator._update_spectral_settings starts the %s accumulation from %s' % (role, inits.get(acc)))
+        e, r = got.get(role, (None, None))
+        if r is None:
+            run.undecided('C16-R2', 'Polychromator ' + role, 'reduction over the filters not recognised: %s' % (norm(e)[:50] if e is not None else None))
+        elif r[0] == 'badinit':
+            run.fail('C16-R2', KP + role + '-init', pc.mod.relpath, us0.lineno, 'Polychromator._update_spectral_settings: the %s accumulation %s' % (role, r[1]))
+        elif r[0] == 'pick':
+            run.fail('C16-R2', KP + role, pc.mod.relpath, us0.lineno,
+                     "Polychromator._update_spectral_settings takes the %s from the filter with the %s %s, not the %s of %s over all filters: "
+                     "with nested or overlapping filters the range does not cover every filter" % (role, r[2], r[1], WANT[role][0], r[3]))
+        elif r[0] != WANT[role][0]:
+            run.fail('C16-R2', KP + role, pc.mod.relpath, us0.lineno,
+                     'Polychromator._update_spectral_settings accumulates the %s with %s(): %s' % (role, r[0], norm(e)[:60]))
+        elif r[1] not in WANT[role][1]:
+            run.fail('C16-R2', KP + role, pc.mod.relpath, us0.lineno,
+                     'Polychromator._update_spectral_settings takes the %s over %s; expected %s' % (role, r[1], WANT[role][1][0]))
         else:
-            run.ok('C16-R2', 'Polychromator ' + role, norm(st), sample=False)
-    post = {}
-    after = us.body[us.body.index(lp) + 1:]
-    for st in after:
-        if isinstance(st, ast.Assign) and len(st.targets) == 1:
-            post[norm(st.targets[0])] = st.value
-    if all(r in roles for r in ('min', 'max', 'step')):
-        mn, mx, stp = roles['min'][0], roles['max'][0], roles['step'][0]
-        for fld, var in (('self._min_wavelength', mn), ('self._max_wavelength', mx)):
-            run.subject('C16-R2')
-            e = post.get(fld)
-            if e is not None and norm(e) == var:
-                run.ok('C16-R2', 'Polychromator ' + fld, var, sample=False)
-            elif e is not None and isinstance(e, ast.Name):
-                run.fail('C16-R2', KP + 'store:' + fld, pc.mod.relpath, us0.lineno, 'Polychromator stores %s in %s' % (norm(e), fld))
-            else:
-                run.undecided('C16-R2', 'Polychromator ' + fld, 'form not recognised: %s' % (norm(e) if e is not None else None))
-        run.subject('C16-R2')
-        e = post.get('self._spectral_bins')
-        want = 'int(np.ceil((%s - %s) / %s))' % (mx, mn, stp)
-        if e is not None and norm(e) == want:
-            run.ok('C16-R2', 'Polychromator bins', want, sample=False)
-        elif e is not None and isinstance(e, ast.Call) and dotted(e.func) in ('int', 'round') and not any(
-                isinstance(x, ast.Call) and dotted(x.func) in ('np.ceil', 'ceil', 'math.ceil') for x in ast.walk(e)):
-            run.fail('C16-R2', KP + 'bins', pc.mod.relpath, us0.lineno, 'Polychromator rounds the number of bins down: %s' % norm(e))
+            run.ok('C16-R2', 'Polychromator ' + role, '%s over the filters of %s' % (r[0], r[1]), sample=False)
+    run.subject('C16-R2')
+    if parts is None:
+        run.undecided('C16-R2', 'Polychromator bins', 'form not recognised: %s' % (norm(bins) if bins is not None else None))
+    else:
+        rmx, rmn = reduction(parts[0]), reduction(parts[1])
+        ceil_ = any(isinstance(x, ast.Call) and dotted(x.func) in ('np.ceil', 'ceil', 'math.ceil') for x in ast.walk(res(orig_bins)))
+        if not ceil_:
+            run.fail('C16-R2', KP + 'bins', pc.mod.relpath, us0.lineno, 'Polychromator rounds the number of bins down: %s' % norm(orig_bins))
+        elif rmx and rmn and rmx[0] == 'max' and rmn[0] == 'min' and rmx[1] in WANT['max'][1] and rmn[1] in WANT['min'][1]:
+            run.ok('C16-R2', 'Polychromator bins', 'ceil((max - min) / step)', sample=False)
+        elif rmx and rmn and rmx[0] in ('min', 'max') and rmn[0] in ('min', 'max'):
+            run.fail('C16-R2', KP + 'bins', pc.mod.relpath, us0.lineno, 'Polychromator bin count is not ceil((max - min) / step): %s' % norm(orig_bins)[:80])
         else:
-            run.undecided('C16-R2', 'Polychromator bins', 'form not recognised: %s' % (norm(e) if e is not None else None))
+            run.undecided('C16-R2', 'Polychromator bins', 'range operands not recognised: %s' % norm(orig_bins)[:60])
     # one pipeline (class and kwargs) per filter, in filter order
     for bname, elt_has in (('_update_pipeline_classes', None), ('_update_pipeline_kwargs', "'filter'")):
         run.subject('C16-R2')
@@ -523,6 +620,14 @@ _SP = 'cherab/tools/spectroscopy/spectrometer.py'
 _PO = 'cherab/tools/spectroscopy/polychromator.py'
 _IN = 'cherab/tools/spectroscopy/instrument.py'
 MUTANTS = [
+    dict(name='polychromator-range-from-outermost-centres', file='cherab/tools/spectroscopy/polychromator.py', find="        min_wavelength = np.inf\n        max_wavelength = 0\n        step = np.inf\n        for poly_filter in self._filters:\n            step = min(step, poly_filter.window / self._min_bins_per_window)\n            min_wavelength = min(min_wavelength, poly_filter.min_wavelength)\n            max_wavelength = max(max_wavelength, poly_filter.max_wavelength)\n",
+         replace="        ordered = sorted(self._filters, key=lambda f: f.central_wavelength)\n        min_wavelength = ordered[0].min_wavelength\n        max_wavelength = ordered[-1].max_wavelength\n        step = min(f.window for f in ordered) / self._min_bins_per_window\n", expect='C16-R2'),
+    dict(name='czerny-turner-angle-memo-reset-late', file='cherab/tools/spectroscopy/spectrometer.py',
+         find="        angle = self._diffraction_angle\n        fl = self._focal_length\n",
+         replace="        if getattr(self, '_angle_memo', None) is None:\n            pass\n        if self._angle_memo is None:\n            self._angle_memo = self._diffraction_angle\n        angle = self._angle_memo\n        fl = self._focal_length\n", expect='C16-R4'),
+    dict(name='calibrated-spectra-share-one-buffer', file='cherab/tools/spectroscopy/spectrometer.py',
+         find="        for wl2pix in self.wavelength_to_pixel:\n            calibrated_spectrum = np.zeros(wl2pix.size - 1)\n",
+         replace="        output = np.zeros(max(wl2pix.size for wl2pix in self.wavelength_to_pixel) - 1)\n        for wl2pix in self.wavelength_to_pixel:\n            calibrated_spectrum = output[:wl2pix.size - 1]\n", expect='C16-R3'),
     dict(name='filters-reset-only-when-count-changes', file='cherab/tools/spectroscopy/polychromator.py',
          find="        self._pipeline_classes = None\n        self._pipeline_kwargs = None\n\n    def _update_pipeline_classes",
          replace="        if self._pipeline_classes is None or len(self._pipeline_classes) != len(value):\n            self._pipeline_classes = None\n            self._pipeline_kwargs = None\n\n    def _update_pipeline_classes", expect='C16-R1'),
@@ -541,6 +646,10 @@ MUTANTS = [
          replace="        self._wavelengths = tuple(_wavelengths)\n\n    @property\n    def wavelength_to_pixel(self):\n        # Wavelength-to-pixel calibration arrays.\n        return self._wavelength_to_pixel\n\n    def resolution", expect='C16-R1'),
 ]
 TWINS = [
+    dict(name='polychromator-range-by-generators', file='cherab/tools/spectroscopy/polychromator.py', find="        min_wavelength = np.inf\n        max_wavelength = 0\n        step = np.inf\n        for poly_filter in self._filters:\n            step = min(step, poly_filter.window / self._min_bins_per_window)\n            min_wavelength = min(min_wavelength, poly_filter.min_wavelength)\n            max_wavelength = max(max_wavelength, poly_filter.max_wavelength)\n",
+         replace="        min_wavelength = min(f.min_wavelength for f in self._filters)\n        max_wavelength = max([f.max_wavelength for f in self._filters])\n        step = min(f.window for f in self._filters) / self._min_bins_per_window\n"),
+    dict(name='polychromator-range-by-sorting-on-the-bound', file='cherab/tools/spectroscopy/polychromator.py', find="        min_wavelength = np.inf\n        max_wavelength = 0\n        step = np.inf\n        for poly_filter in self._filters:\n            step = min(step, poly_filter.window / self._min_bins_per_window)\n            min_wavelength = min(min_wavelength, poly_filter.min_wavelength)\n            max_wavelength = max(max_wavelength, poly_filter.max_wavelength)\n",
+         replace="        step = min(f.window / self._min_bins_per_window for f in self._filters)\n        min_wavelength = sorted(self._filters, key=lambda f: f.min_wavelength)[0].min_wavelength\n        max_wavelength = max(self._filters, key=lambda f: f.max_wavelength).max_wavelength\n"),
     dict(name='setter-skips-unchanged-value', file='cherab/tools/spectroscopy/polychromator.py',
          find="        self._min_bins_per_window = value\n        self._clear_spectral_settings()",
          replace="        if value != self._min_bins_per_window:\n            self._min_bins_per_window = value\n            self._clear_spectral_settings()"),
